@@ -94,6 +94,19 @@ def layout_case(draw, tier: str):
             if all(h.name != nm for h in st_.fields):
                 st_.fields.append(M.Field(nm, max(h.fid for h in st_.fields) + 1, M.U(draw(st.integers(1, 8)))))
                 flat_sib[st_.name] = nm
+    # a field whose name differs only in letter case from a field that carries a signal block ("ID" next to "id", in the
+    # same or in a nested struct): differently named, so the block's options must not reach it
+    case_sib: Dict[str, str] = {}
+    for st_ in s.structs:
+        if draw(st.integers(0, 2)) == 0:
+            f = draw(st.sampled_from(st_.fields))
+            twin = draw(st.sampled_from([f.name.upper(), f.name.capitalize(), f.name.swapcase()]))
+            if twin != f.name and S._ok_plain(twin):
+                nested_f = [g for g in st_.fields if isinstance(M.type_leaf(g.type), M.StructRef)]
+                host = s.struct(M.type_leaf(draw(st.sampled_from(nested_f)).type).name) if nested_f and draw(st.booleans()) else st_
+                if all(h.name != twin for h in host.fields) and all(h.name != twin for h in st_.fields):
+                    host.fields.append(M.Field(twin, max(h.fid for h in host.fields) + 1, M.U(draw(st.integers(1, 8)))))
+                    case_sib[st_.name] = f.name
     if draw(st.integers(0, 7)) == 0:
         # directed: an array of structs whose elements contain an array of structs (two unrolled levels), with the
         # inner field named after the outer one
@@ -124,6 +137,9 @@ def layout_case(draw, tier: str):
         used.add((eff, proto))
         fields = [("id", draw(st.integers(0, 2047)))]
         sbs = draw(S.signal_blocks(s, target))
+        if target in case_sib and all(sb.name != case_sib[target] for sb in sbs) and draw(st.integers(0, 3)) != 0:
+            sbs.append(M.SignalBlock(case_sib[target], draw(st.sampled_from([
+                [("endianess", "big")], [("mux_count", 4), ("mux_signal", case_sib[target])], [("endianess", "big"), ("scale", 2)]]))))
         if target in flat_sib and all(sb.name != flat_sib[target] for sb in sbs) and draw(st.integers(0, 3)) != 0:
             sbs.append(M.SignalBlock(flat_sib[target], draw(st.sampled_from([
                 [("endianess", "big")], [("mux_count", 4), ("mux_signal", flat_sib[target])], [("endianess", "big"), ("scale", 2)]]))))
